@@ -7,6 +7,7 @@ From PV Require Import Lib.PyBase Spec.TdFloat Gen.Constants Model.Duration Gen.
 Import ListNotations.
 Open Scope Z_scope.
 Ltac Zify.zify_post_hook ::= Z.to_euclidean_division_equations.
+Set Default Timeout 20.
 
 (* ------------------------------------------------------------------ Part 1: _divide_and_round *)
 (* q is a nearest integer to a / b, ties to even, stated without division:  |2 (a - q b)| <= |b|, and on a tie q is even *)
@@ -24,9 +25,11 @@ Proof.
   intros a b Hb. rewrite divide_and_round_unfold. cbv zeta. unfold nearest_even.
   pose proof (Z.div_mod a b Hb) as DM.
   assert (HR : (0 < b /\ 0 <= a mod b < b) \/ (b < 0 /\ b < a mod b <= 0)).
-  { destruct (Z_lt_ge_dec 0 b); [left | right]; split; try lia. }
-  set (q := a / b) in *. set (r := a mod b) in *.
-  assert (E : forall k, a - k * b = r + (q - k) * b) by (intro; lia).
+  { destruct (Z_lt_ge_dec 0 b); [left | right]; (split; [lia|]).
+    - apply Z.mod_pos_bound; lia.
+    - apply Z.mod_neg_bound; lia. }
+  set (q := a / b) in *. set (r := a mod b) in *. clearbody q r.
+  assert (E : forall k, a - k * b = r + (q - k) * b) by (intro; nia).
   assert (Q2 : q mod 2 = 0 \/ q mod 2 = 1) by (pose proof (Z.mod_pos_bound q 2); lia).
   assert (Q3 : (q + 1) mod 2 = 1 - q mod 2) by lia.
   destruct HR as [[Bp Hr]|[Bn Hr]].
@@ -53,18 +56,22 @@ Lemma nearest_even_unique : forall a b q1 q2, b <> 0 -> nearest_even a b q1 -> n
 Proof.
   intros a b q1 q2 Hb [A1 T1] [A2 T2].
   destruct (Z.eq_dec q1 q2) as [|Hne]; [assumption | exfalso].
-  set (d := q2 - q1). assert (Hd : d <> 0) by (unfold d; lia).
-  assert (E : a - q2 * b = (a - q1 * b) - d * b) by (unfold d; lia).
-  assert (M : Z.abs b <= Z.abs (d * b)).
-  { rewrite Z.abs_mul. assert (1 <= Z.abs d) by lia. nia. }
-  (* |x| + |x - d b| >= |d b| >= |b| and both are <= |b|/2: equality everywhere, so |d| = 1 and both are ties *)
-  assert (S : Z.abs (d * b) <= Z.abs (a - q1 * b) + Z.abs (a - q2 * b)) by (rewrite E; lia).
-  assert (TA : 2 * Z.abs (a - q1 * b) = Z.abs b) by lia.
-  assert (TB : 2 * Z.abs (a - q2 * b) = Z.abs b) by lia.
+  remember (q2 - q1) as d eqn:Ed.
+  remember (a - q1 * b) as x eqn:Ex. remember (a - q2 * b) as y eqn:Ey.
+  assert (E : y = x - d * b) by (subst; ring).
+  remember (d * b) as P eqn:EP.
+  assert (AP : Z.abs P = Z.abs d * Z.abs b) by (subst P; apply Z.abs_mul).
+  assert (Hd : 1 <= Z.abs d) by lia.
+  assert (Hab : 1 <= Z.abs b) by lia.
+  assert (S : Z.abs P <= Z.abs x + Z.abs y) by lia.
   assert (D1 : Z.abs d = 1).
-  { assert (Z.abs (d * b) = Z.abs b) by lia. rewrite Z.abs_mul in H. assert (0 < Z.abs b) by lia. nia. }
+  { assert (L : Z.abs d * Z.abs b <= Z.abs b) by lia.
+    clear - L Hd Hab. remember (Z.abs d) as ad. remember (Z.abs b) as ab. clear Heqad Heqab. nia. }
+  rewrite D1 in AP.
+  assert (TA : 2 * Z.abs x = Z.abs b) by lia.
+  assert (TB : 2 * Z.abs y = Z.abs b) by lia.
   specialize (T1 TA). specialize (T2 TB).
-  assert (q2 = q1 + 1 \/ q2 = q1 - 1) by (unfold d in D1; lia).
+  assert (q2 = q1 + 1 \/ q2 = q1 - 1) by lia.
   lia.
 Qed.
 
